@@ -1,7 +1,7 @@
 import ApolloModel.Model.NumbersParse
 /-
 C14 growth 3: model of `value_of_correct_type` (validation/value.rs, with fixes 1d09582, 9a745ed, 99806f4,
-cce5216): the check of a literal against an input type, used for the arguments of directives applied in a
+cce5216 and the opaque list literal for custom scalars): the check of a literal against an input type, used for the arguments of directives applied in a
 schema (`validate_directives` → `validate_arguments` → `value_of_correct_type`), for arguments and default
 values in executable documents, and (once issue 928 is closed) for default values of a schema.
 
@@ -227,6 +227,8 @@ def check (S : Schema) (vars : List VarDef) (ty : Ty) : Value → List Diag
     | some td =>
       let acceptsList := ty.isList || (match td with | .scalar false => true | _ => false)
       if !acceptsList then [.unsupportedValueType]
+      -- a list literal given to a custom scalar (not to a list of them) is opaque, like an object literal
+      else if !ty.isList then opaqueList vars vs
       else if td.isInputType then checkItems S vars ty.itemType vs
       else [.unsupportedValueType]
   | .object fs => match S.lookup ty.innerNamed with
